@@ -163,10 +163,10 @@ func c15Scan(s *bufio.Scanner) bool {
 func c15Text(s *bufio.Scanner) string { return c15Lines[c15LinePos-1] }
 func c15Err(s *bufio.Scanner) error   { return nil }
 
-var c15LineShapes = []string{"A=1", "A", "A=1=2", "=", "", "=x", "# comment"}
+var c15LineShapes = []string{"A=1", "A", "A=1=2", "=", "", "=x", "# comment", " ", "\t", "  # c", " A=1", "\t "}
 var c15D = []string{"0", "1", "2"}
 
-// the two lines are chosen by the job (all 49 pairs of line shapes are run)
+// the two lines are chosen by the job (all 144 pairs of the 12 line shapes are run; whitespace-only and indented lines since seed C15-8)
 func VerifC15EnvFile(l0, l1 int) {
 	rt.Redirect("os.Open", c15Open)
 	rt.Redirect("(*bufio.Scanner).Scan", c15Scan)
